@@ -149,7 +149,7 @@ func runC12(c *Ctx) {
 		sort.Strings(dl)
 		for _, d := range dl {
 			for _, e := range extVariants {
-				for _, m := range []string{"issue", "value-before-issue", "value-after-issue"} {
+				for _, m := range []string{"issue", "value-before-issue", "value-after-issue", "issue,op-before", "issue,op-after", "value-before-issue,op-between"} {
 					points = append(points, c12point{j.reg.Country, j.cat.Code, j.rate.Key, d, e, m})
 				}
 			}
@@ -223,12 +223,19 @@ func runC12(c *Ctx) {
 		}
 
 		// path 2: a whole invoice
-		issue, value := p.Date, ""
+		// the operation date never decides the rate: the value date does, else the issue date
+		issue, value, op := p.Date, "", ""
 		switch p.ValueDateMode {
 		case "value-before-issue":
 			issue, value = shiftDate(p.Date, 400), p.Date
 		case "value-after-issue":
 			issue, value = shiftDate(p.Date, -400), p.Date
+		case "issue,op-before":
+			op = shiftDate(p.Date, -400)
+		case "issue,op-after":
+			op = shiftDate(p.Date, 400)
+		case "value-before-issue,op-between":
+			issue, value, op = shiftDate(p.Date, 400), p.Date, shiftDate(p.Date, 200)
 		}
 		combo := map[string]any{"cat": p.Cat, "rate": p.Rate}
 		if len(p.Ext) > 0 {
@@ -247,6 +254,9 @@ func runC12(c *Ctx) {
 		}
 		if value != "" {
 			inv["value_date"] = value
+		}
+		if op != "" {
+			inv["op_date"] = op
 		}
 		docJSON, _ := json.Marshal(inv)
 		var out []byte
